@@ -28,6 +28,11 @@ RULE = ('histories over {backward(any subset of parameters, random gradient arra
         'elements, mixed frozen/trainable; every array element is one scalar parameter of the model. Compared after every '
         'event: values (rel 1e-10), presence and value of .grad, identity / dtype / shape of p.data. Non-trivial: >= 2 steps '
         'and a non-default hyper-parameter. '
+        'FALSY family: for SGD / Adam / AdamW every constructor argument in turn (then all at once, and lr = 0 with all others falsy) at its falsy-but-legal values — lr / momentum / '
+        'dampening / weight_decay / eps as int 0, 0.0, -0.0, betas containing 0 (ints, floats, a list), nesterov / maximize given explicitly as False / 0 — and as ints where floats are usual '
+        '(1, 2), the other arguments non-default, passed to the constructor exactly as written, each followed by a fixed-shape history (3 parameters, one frozen, two backwards per step, '
+        'step without zero_grad) observed through the value model (float64, lr = 0 also float32) and through the store model (momentum buffer / moments keep evolving under lr = 0); '
+        'enumerated identically in every run. '
         'NON-FINITE GRADIENTS: histories with one to three overflow episodes — a backward whose gradient holds inf / -inf / NaN in some entries of some parameters (float64 also +-1.5e308, '
         'overflowing on accumulation), the step skipped (3 of 4) or taken, zero_grad through Optimizer.zero_grad / Module.zero_grad (parameters held by a module and a submodule) / '
         'Tensor.zero_ on every parameter, then finite gradients and steps — for every optimizer x every way of resetting; model and implementation run at Float, so inf / NaN flow through both; '
@@ -128,6 +133,67 @@ def gen_nonfinite(rng, tier, kind=None):
     return c
 
 
+# ---- family `falsy`: every constructor argument at its FALSY-but-legal values -----------------
+_FALSY_BASE = {
+    'sgd':   [{'lr': 0.1, 'momentum': 0.9, 'dampening': 0.25, 'weight_decay': 0.3, 'nesterov': False, 'maximize': True},
+              {'lr': 0.5, 'momentum': 0.5, 'dampening': 0.0, 'weight_decay': 0.1, 'nesterov': True, 'maximize': False}],
+    'adam':  [{'lr': 0.05, 'betas': (0.5, 0.75), 'eps': 1e-3, 'weight_decay': 0.3, 'maximize': True}],
+    'adamw': [{'lr': 0.05, 'betas': (0.9, 0.999), 'eps': 1e-3, 'weight_decay': 0.3, 'maximize': True}],
+}
+# value lists per argument: the falsy spellings (int 0, 0.0, -0.0, False given explicitly) first, then ints where floats are usual
+_FALSY_VALUES = {
+    'lr': [0, 0.0, -0.0, 1, 2],
+    'momentum': [0, 0.0, -0.0, 1],
+    'dampening': [0, 0.0, -0.0, 1],
+    'weight_decay': [0, 0.0, -0.0, 1],
+    'nesterov': [False, 0],
+    'maximize': [False, 0],
+    'betas': [(0, 0.999), (0.0, 0.999), (0.9, 0), (0.9, 0.0), (0, 0), (0.0, 0.0), (-0.0, -0.0), [0.5, 0.75]],
+    'eps': [0, 0.0, -0.0, 1],
+}
+
+
+def _is_falsy(v):
+    return any(not x for x in v) if isinstance(v, (tuple, list)) else not v
+
+
+def gen_falsy(rng):
+    """the constructors of SGD / Adam / AdamW with ONE argument (then all of them) at a falsy-but-legal value — lr 0 / 0.0 / -0.0 (first
+    value of a warm-up schedule, a dry run), momentum / dampening / weight_decay 0, betas containing 0, eps 0, nesterov / maximize given
+    explicitly as False / 0 — and with ints where floats are usual, every other argument non-default so that a replaced value shows;
+    enumerated the same way in every run, the numbers of the short history that follows (two backwards per step once, a step without
+    zero_grad, a frozen parameter) drawn.  The values reach the constructor exactly as written here (ints stay ints).  With lr = 0 the
+    parameters stay where they are while momentum buffer / moments still evolve (observed by the `store` twin of every case)."""
+    out = []
+    def history(kind, hp, arg, val, dt):
+        sizes = [2, 1, 3]
+        thetas = [[rng.dyadic(-3, 3) or 1.5 for _ in range(s)] for s in sizes]
+        g = lambda i: [rng.dyadic(-2, 2) or 0.75 for _ in range(sizes[i])]
+        evs = [('bw', {0: g(0), 1: g(1), 2: g(2)}), ('step',), ('bw', {0: g(0), 2: g(2)}), ('step',), ('zero',),
+               ('bw', {0: g(0), 1: g(1)}), ('bw', {1: g(1), 2: g(2)}), ('step',), ('step',)]
+        tag = {'arg': arg, 'val': repr(val), 'falsy': _is_falsy(val)}
+        c = {'opt': kind, 'hp': hp, 'thetas': thetas, 'rgs': [True, False, True], 'evs': evs, 'seed_lay': 0, 'dt': dt, 'falsy': tag}
+        out.append(c)
+        # the same constructor over array buffers with identities: contents of momentum buffer / moments after every event
+        out.append({'kind': 'store', 'opt': kind, 'hp': hp, 'thetas': [list(t) for t in thetas], 'rgs': [True, False, True], 'evs': list(evs), 'falsy': tag})
+    for kind in ('sgd', 'adam', 'adamw'):
+        for b, base in enumerate(_FALSY_BASE[kind]):
+            for arg in base:
+                for val in _FALSY_VALUES[arg]:
+                    hp = dict(base); hp[arg] = val
+                    if kind == 'sgd' and hp['nesterov'] and (not hp['momentum'] or hp['dampening']): continue   # rejected by the constructor: covered by the grid
+                    history(kind, hp, arg, val, 'f32' if (arg == 'lr' and b == 0 and val == 0 and isinstance(val, int)) else 'f64')
+        # everything falsy at once; lr falsy with everything else falsy; lr falsy in float32
+        if kind == 'sgd':
+            zero = {'lr': 0.1, 'momentum': 0, 'dampening': 0, 'weight_decay': 0, 'nesterov': False, 'maximize': False}
+        else:
+            zero = {'lr': 0.1, 'betas': (0, 0), 'eps': 0, 'weight_decay': 0, 'maximize': False}
+        history(kind, dict(zero), '*', 0, 'f64')
+        history(kind, dict(zero, lr=0), 'lr+*', 0, 'f64')
+        history(kind, dict(_FALSY_BASE[kind][0], lr=0.0), 'lr', 0.0, 'f32')
+    return out
+
+
 def _ctor_line(c):
     hp, kind = c['hp'], c['opt']
     th = show_floats([v for t in c['thetas'] for v in t])
@@ -204,6 +270,8 @@ def cases(rng, tier):
         out.extend(optim_cases.cases(rng, tier))
     except Exception:
         pass                                  # nothing translated: the build of Props.C08 reports it
+    # family `falsy` (generated last: everything above is drawn exactly as before)
+    out.extend(gen_falsy(rng))
     for c in out:
         c['lines'] = lines_of(c)
         c['desc'] = {'opt': c['opt'], 'hp': c['hp'], 'thetas': c['thetas'], 'rgs': c['rgs'], 'evs': c['evs'][:12]}
@@ -343,6 +411,7 @@ def compare(c, mo, io):
 
 def nontrivial(c):
     if c.get('kind') == 'gstep': return True
+    if c.get('falsy'): return sum(1 for e in c['evs'] if e[0] == 'step') >= 2
     hp = c['hp']
     nd = any(hp.get(k) for k in ('momentum', 'dampening', 'weight_decay', 'nesterov', 'maximize')) or c['opt'] != 'sgd'
     if c.get('kind') == 'store':
@@ -362,6 +431,12 @@ def nontrivial(c):
 def distribution(cases):
     d = {}
     for c in cases:
+        if c.get('falsy'):
+            f = c['falsy']
+            fam = 'falsy family (constructor argument at a falsy-but-legal value / an int where a float is usual, short history after it)'
+            for k in (fam, f"falsy: {c['opt']}({f['arg']}={f['val']})" + (' [falsy / contains a falsy value]' if f['falsy'] else ' [int / list where float / tuple is usual]'),
+                      'falsy: observed through ' + ('store (buffers / moments)' if c.get('kind') == 'store' else 'values (' + c.get('dt', 'f64') + ')')):
+                d[k] = d.get(k, 0) + 1
         if c.get('kind') == 'gstep':
             d['gstep:' + c['opt']] = d.get('gstep:' + c['opt'], 0) + 1
             continue
